@@ -48,7 +48,9 @@ func fetchURL(url, baseURL string) ([]byte, string, error) {
 }
 
 // Find rules among stylesheet rules and imports.
-func findStylesheetsRules(rules []pa.Compound, baseUrl string) (out []pa.QualifiedRule) {
+// [importing] holds the urls of the stylesheets being imported: a sheet
+// importing itself (directly or not) is ignored.
+func findStylesheetsRules(rules []pa.Compound, baseUrl string, importing utils.Set) (out []pa.QualifiedRule) {
 	for _, rule := range rules {
 		switch rule := rule.(type) {
 		case pa.AtRule:
@@ -80,8 +82,17 @@ func findStylesheetsRules(rules []pa.Compound, baseUrl string) (out []pa.Qualifi
 					continue
 				}
 
+				if importing.Has(resolvedURL) {
+					logger.WarningLogger.Printf("cyclic @import of %s was ignored", resolvedURL)
+					continue
+				}
+				if importing == nil {
+					importing = utils.NewSet()
+				}
+				importing.Add(resolvedURL)
 				stylesheet := pa.ParseStylesheetBytes(cssContent, true, true)
-				out = append(out, findStylesheetsRules(stylesheet, resolvedURL)...)
+				out = append(out, findStylesheetsRules(stylesheet, resolvedURL, importing)...)
+				delete(importing, resolvedURL)
 			}
 			// if rule.AtKeyword.Lower() == "media":
 		case pa.QualifiedRule:
@@ -127,7 +138,7 @@ func parseStylesheets(stylesheets [][]byte, url string) (matcher, matcher) {
 	// Parse rules and fill matchers
 	for _, css := range stylesheets {
 		stylesheet := pa.ParseStylesheetBytes(css, true, true)
-		for _, rule := range findStylesheetsRules(stylesheet, url) {
+		for _, rule := range findStylesheetsRules(stylesheet, url, nil) {
 			normalDeclarations, importantDeclarations := parseDeclarations(rule.Content)
 			prelude := pa.Serialize(rule.Prelude)
 			selector, err := selector.ParseGroup(prelude)
